@@ -201,6 +201,6 @@ def replay(ctx, rec):
         print(h[:24], "...", "ok" if same else f"differs: bytes path {a['src']},{a['dst']},{a['cc']},{a['reser_err']} parser path {b['src']},{b['dst']},{b['cc']},{b['reser_err']}")
         bad += 0 if same else 1
     if bad:
-        print(f"VIOLATION property=C13 replay=(given) {bad} frames still fail")
+        print(f"VIOLATION property=C13 replay={rec.get('path', '(given)')} {bad} frames still fail")
         return 1
     return 0
